@@ -14,7 +14,7 @@ func init() {
 			"from PCG(seed, property, index); each record is captured at a recording writer and decoded by an independent strict JSON walker; " +
 			"non-trivial = record decoded and matched AND (has attributes or a non-plain message); distinct = by payload bytes",
 		Assumptions: []string{"encoding/json's scanner and decoder (go1.23.5) as the reference for RFC 8259 validity", "user marshallers / value stringers are outside the domain"},
-		Floors:      map[string]int64{"records_decoded": 100, "handler_records_decoded": 1000, "records_with_one_group_object_used_twice": 100},
+		Floors:      map[string]int64{"records_decoded": 100, "records_through_the_printf_style_entry_points": 100, "records_without_a_frame_with_the_caller_flag_on": 100},
 		Jobs: func(tier string, seed int64) []Job {
 			n := pick(tier, 40000, 1200000)
 			js := chunk("main", "prod", n, pick(tier, 2500, 37500), Job{Timeout: 30 * time.Minute})
